@@ -903,7 +903,6 @@ func isSingletonOf(v ssa.Value, par *ssa.Parameter) bool {
 	return false
 }
 
-
 // checkCopiesUntouched: "returns the original payload and blocks". The result is put together from copies of the first
 // fragment's primary block and extension blocks plus one new payload block; a method that stores through a *Bundle
 // receiver (SetCRCType, AddExtensionBlock, sortBlocks ...) applied to the result rewrites the copied blocks as well.
@@ -934,7 +933,6 @@ func checkCopiesUntouched(p *core.Program, r *core.Report, fn *ssa.Function) {
 	r.Analysed["mutator_calls_in_"+fn.Name()] = n
 	r.Check(len(bad) == 0, "copies-untouched/"+fname(fn), "the blocks copied from the fragments into the result are not rewritten: no method that stores through a *Bundle receiver is applied to the result (a CRC type, number or order set bundle-wide changes the copied blocks, the result no longer equals the original)", p.Pos(fn.Pos()), "", "bundle-wide mutator(s) applied: "+strings.Join(bad, ", "))
 }
-
 
 // mayMutateMethods: mutatingMethods plus the pointer-receiver methods of bpv7 that hand an address derived from their
 // receiver to a call the analysis cannot see through (a function value, an interface method) or to a method already in
@@ -986,7 +984,6 @@ func mayMutateMethods(p *core.Program) map[*ssa.Function]bool {
 	}
 	return out
 }
-
 
 // freshInLoop: the slice value v is created within loop l (per iteration), not an alias of one created outside.
 func freshInLoop(v ssa.Value, l *core.Loop, seen map[ssa.Value]bool) bool {
